@@ -118,7 +118,8 @@ PanicAt(site, k) == [kind |-> "panic_at", site |-> site, k |-> k, lie |-> "none"
 Lie(how)         == [kind |-> "lie", site |-> "none", k |-> 0, lie |-> how]
 Forget           == [kind |-> "forget", site |-> "none", k |-> 0, lie |-> "none"]
 
-\* caller-supplied element iterators: the k-th next()/next_back()/len() panics, or len() lies
+\* caller-supplied element iterators: the k-th next()/next_back()/len() panics, or len() lies - by a constant amount, or
+\* ("flip") honestly on the first call and differently on later ones although nothing was consumed in between
 FIter == /\ "iter" \in Faults
          /\ \/ \E op \in {"insert_row", "push_row"}, i \in Edge(R) :
                  LET n == IF grid = << >> THEN 2 ELSE C
@@ -126,14 +127,14 @@ FIter == /\ "iter" \in Faults
                  \/ \E k \in 0..n : DoFault(op, a, PanicAt("next", k), Fresh(n), n)
                  \/ DoFault(op, a, PanicAt("iter_drop", 0), Fresh(n), n)          \* the iterator's own destructor panics
                  \/ \E k \in 0..1 : DoFault(op, a, PanicAt("len", k), Fresh(n), n)
-                 \/ \E how \in {"minus1", "plus1", "max"} : DoFault(op, a, Lie(how), Fresh(n), n)
+                 \/ \E how \in {"minus1", "plus1", "max", "flip_down", "flip_up"} : DoFault(op, a, Lie(how), Fresh(n), n)
             \/ \E op \in {"insert_col", "push_col"}, i \in Edge(C) :
                  LET n == IF grid = << >> THEN 2 ELSE R
                      a == IF op = "insert_col" THEN [index |-> Min2(i, C), items |-> Fresh(n)] ELSE [items |-> Fresh(n)] IN
                  \/ \E k \in 0..n : DoFault(op, a, PanicAt("next_back", k), Fresh(n), n)
                  \/ DoFault(op, a, PanicAt("iter_drop", 0), Fresh(n), n)
                  \/ \E k \in 0..1 : DoFault(op, a, PanicAt("len", k), Fresh(n), n)
-                 \/ \E how \in {"minus1", "plus1", "max"} : DoFault(op, a, Lie(how), Fresh(n), n)
+                 \/ \E how \in {"minus1", "plus1", "max", "flip_down", "flip_up"} : DoFault(op, a, Lie(how), Fresh(n), n)
 \* Clone panics at its k-th call
 FClone == /\ "clone" \in Faults
           /\ \/ \E k \in 0..Cells : DoFault("fill", [v |-> nextId], PanicAt("clone", k), <<nextId>>, 1)
